@@ -4,7 +4,7 @@ import json, os, subprocess
 ROOT = os.path.dirname(os.path.dirname(os.path.abspath(__file__)))
 # property a fix is recorded under (first matching keyword in the commit subject)
 RULES = [
-    ("user-defined function", "C06"), ("zip of sequences", "C06"), ("set_default", "C06"),
+    ("forward", "C03"), ("grammar: an identifier", "C03"), ("grammar: 'struct'", "C03"), ("user-defined function", "C06"), ("zip of sequences", "C06"), ("set_default", "C06"),
     ("merge sort", "C19"), ("hash of a set/mapping", "C19"), ("format of i64::MIN", "C14"),
     ("generator", "C16"), ("generators", "C16"),
     ("sequence", "C15"), ("range", "C15"), ("combination", "C15"), ("to_array", "C15"),
@@ -28,6 +28,11 @@ OPEN = [
      "what": "cdf / quantile of the continuous distributions hand extreme arguments straight to statrs 0.16, whose special functions (function/beta.rs, function/gamma.rs) unwrap a domain check: e.g. fisher_snedecor_distribution(6.0, 4.0).cdf(1e308) or quantile(students_t_distribution(1.0000000000000002, 1e308), 2.2e-308) panic inside the dependency",
      "example": "let d = fisher_snedecor_distribution(6.0, 4.0);\nlet r = d.cdf(1e308);",
      "why_not_fixed": "the domain of every statrs special function would have to be re-validated in each of the ~40 distribution wrappers (or the dependency upgraded to a release that returns errors): not a minimal patch"},
+    {"id": "K-C03-01", "property": "C03", "status": "open",
+     "sig": r"^(escaping_forward:.*|generated_with_forward_fn_inside_a_function)\|panic:runtime_scope\.rs:ran out of scope parents at runtime$",
+     "what": "same defect as K-C01-01 seen through C03: a function declared between a `forward fn` and its implementation *inside a function body* keeps a lazily resolved reference; when it (or a closure calling it) is returned and called after that body has finished, the call panics instead of using the binding of its defining scope (top-level forward declarations were repaired, see the fixed entries)",
+     "example": "fn outer()->()->(int){ forward fn b()->int; fn a()->int{ b() } fn b()->int{ 5 } a }\nlet r = outer()();",
+     "why_not_fixed": "see K-C01-01"},
     {"id": "K-C02-01", "property": "C02", "status": "open",
      "sig": r"^grammar:lt_gt_in_argument_list\|rejected$",
      "what": "`f(a < b, c > d)`: a bare name followed by `<` inside an argument / element list is parsed as a generic specialisation `a<b, c>` and the program is rejected with a syntax error (e.g. `if(x < y, y > 0, true)`); writing `(x < y)` works",
